@@ -544,6 +544,28 @@ def c04_families(tier, seed, ids=None):
                          fr(["e"], [call("gen")], assign("acc", bin_("+", N("acc"), lst([N("e")])))), N("acc"), N(nm)]
             sn.append(mk(ids, items, {"shared-name": lname, "where": where}))
     out.append(("a statement introduces a name that an enclosing scope also has and reads it first", sn, ("value",)))
+    # function literals evaluated right after control passed between a loop body and its generator (no call in between): each must capture
+    # the variables of the function it is written in
+    gencl = assign("gencl", fn(["k"], block([y(fn(["x"], bin_("+", N("x"), N("k")))), y(fn(["x"], bin_("*", N("x"), N("k")))), y(fn(["x"], bin_("-", N("x"), N("k"))))])))
+    sw = []
+    bodies = {
+        "closure-first": block([assign("d", fn([], N("s"))), assign("acc", bin_("+", N("acc"), lst([call("d"), call("g", I(1))])))]),
+        "closure-last": block([assign("acc", bin_("+", N("acc"), lst([call("g", I(1))]))), assign("d", fn([], N("s")))]),
+        "closure-only": assign("d", fn([], bin_("+", N("s"), I(1)))),
+        "two-closures": block([assign("d", fn([], N("s"))), assign("e", fn(["q"], bin_("+", N("q"), N("s")))), assign("acc", bin_("+", N("acc"), lst([call("e", I(1)), call("d"), call("g", I(2))])))]),
+    }
+    for bname, body in bodies.items():
+        for where in ("fn", "top", "gen"):
+            tail = [N("acc"), call("d")] if True else []
+            if where == "fn":
+                items = [gencl, assign("ff", fn(["n"], block([assign("s", bin_("*", N("n"), I(100))), assign("acc", lst([])), assign("d", fn([], I(0))), fr(["g"], [call("gencl", I(7))], body), lst([N("acc"), call("d")])]))), call("ff", I(1)), call("ff", I(2))]
+            elif where == "top":
+                items = [gencl, assign("s", I(300)), assign("acc", lst([])), assign("d", fn([], I(0))), fr(["g"], [call("gencl", I(7))], body), lst([N("acc"), call("d")])]
+            else:
+                items = [gencl, assign("outer", fn(["n"], block([assign("s", bin_("*", N("n"), I(100))), assign("acc", lst([])), assign("d", fn([], I(0))), fr(["g"], [call("gencl", I(7))], block([body, y(call("d"))])), y(N("acc"))]))),
+                         assign("col", lst([])), fr(["v"], [call("outer", I(4))], assign("col", bin_("+", N("col"), lst([N("v")])))), N("col")]
+            sw.append(mk(ids, items, {"switch": bname, "where": where}))
+    out.append(("function literals evaluated right after a switch between loop body and generator", sw, ("value",)))
     # a call made in a loop body must not change what the iterator closure sees in its captured variable
     upto = assign("upto", fn(["n"], fn([], block([assign("i", I(0)), wh(bin_("<", N("i"), N("n")), block([y(N("i")), assign("i", bin_("+", N("i"), I(1)))]))]))))
     adder = assign("adder", fn(["k"], fn(["x"], bin_("+", N("x"), N("k")))))
@@ -740,6 +762,10 @@ def failing_items():
     out.append(("parse-lexer-in-open-block", {"perr": True, "src": "gf = (x) -> {\n  y = x_1 + 1\n  y\n}"}, []))
     out.append(("parse-lexer-in-open-array", {"perr": True, "src": "ga = [1,\n  2 ? 3,\n  4]"}, []))
     out.append(("parse-parser-in-open-block", {"perr": True, "src": "gf = (x) -> {\n  y = x +\n  y\n}"}, []))
+    # more closers than openers (a parse error); what follows -- in particular statements spanning several lines -- must be read as usual
+    out.append(("parse-stray-brace", {"perr": True, "src": "}"}, []))
+    out.append(("parse-stray-bracket", {"perr": True, "src": "ga = 1 ]"}, []))
+    out.append(("parse-stray-braces", {"perr": True, "src": "ga = 1 } }"}, []))
     out.append(("parse-unbalanced", {"perr": True, "src": "ga = (1"}, []))
     out.append(("parse-unbalanced-array", {"perr": True, "src": "ga = [1, 2"}, []))
     return out
@@ -751,6 +777,9 @@ def good_items(rnd):
             call("sf", I(2)), assign("sacc", lst([])), fr(["q"], [call("fromto", I(0), I(3))], assign("sacc", bin_("+", N("sacc"), lst([call("sf", N("q"))])))),
             N("sacc"), lst([N("sa"), N("sb"), N("ga"), N("gl"), N("gw"), N("gq")]) if False else lst([N("sa"), N("sb")]),
             call("write", call("toa", lst([N("sa"), N("sb"), N("sacc")]))), fr(["q"], [call("elems", N("sacc"))], N("q")),
+            # statements that span several lines: a braced function body, an array literal over three lines
+            assign("sml", fn(["n"], block([assign("t", bin_("+", N("n"), N("sa"))), bin_("*", N("t"), I(2))]))), call("sml", I(3)),
+            assign("smb", fn(["n"], block([iff(bin_(">", N("n"), I(0)), block([assign("u", I(1)), assign("u", bin_("+", N("u"), N("n")))])), call("toa", N("u"))]))), call("smb", I(2)), call("smb", I(0)),
             # several iterator contexts alive at once: a three-iterator lock-step loop and a triple nesting
             assign("szip", lst([])), fr(["za", "zb", "zc"], [call("fromto", I(0), I(3)), call("fromto", I(10), I(13)), call("fromto", I(20), I(23))], assign("szip", bin_("+", N("szip"), lst([bin_("+", bin_("+", N("za"), N("zb")), N("zc"))])))),
             N("szip"), assign("snest", I(0)),
@@ -1031,6 +1060,16 @@ def c12_families(tier, seed, ids=None, ck=None):
     if tier == "quick":
         ed = ed[seed % 4::4]
     out.append(("operands with >= 2 operators inside x operator depth 0-3 x contexts", gens.context_sessions(ed, first_id=1500000, ctx_filter={"top", "midblock", "fntail", "arg", "assign", "elem2", "forbody", "ifcond", "yield", "write"}), ("value",)))
+    # negated comparisons over special values (NaN, infinities, signed zero): the shapes a compiler may fold, in every context
+    nan, inf = bin_("/", Fl(0, 0), Fl(0, 0)), bin_("/", Fl(1, 0), Fl(0, 0))
+    sp = [nan, inf, un("-", inf), Fl(3, 1), I(2), Fl(0, 0), N("x")]
+    neg = []
+    for op in ("<", "<=", ">", ">=", "==", "!="):
+        for a_, b_ in ((nan, Fl(1, 0)), (Fl(1, 0), nan), (nan, nan), (inf, nan), (nan, N("x")), (inf, inf), (Fl(3, 1), I(2)), (N("x"), Fl(1, 0))):
+            neg += [un("!", bin_(op, a_, b_)), un("!", un("!", bin_(op, a_, b_))), bin_("&", un("!", bin_(op, a_, b_)), Bo(True)), bin_("==", un("!", bin_(op, a_, b_)), bin_(op, a_, b_))]
+    if tier == "quick":
+        neg = neg[seed % 2::2]
+    out.append(("negated comparisons over NaN / infinities x contexts", gens.context_sessions(neg, first_id=1800000, ctx_filter={"top", "midblock", "fntail", "fnret", "arg", "assign", "fnassign", "elem", "ifcond", "whilecond", "ifbody", "forbody", "yield", "write", "opl"}), ("value",)))
     ids = Ids(2000000)
     # rewrite pairs of the property text
     rw = []
